@@ -2,6 +2,7 @@
 glue: DESIGN 5/C20), comparison of model and implementation, and the property oracles evaluated on
 the implementation's own output."""
 import os, re, shutil, struct, sys, tempfile, subprocess
+import vp_build
 from fractions import Fraction
 from vp_common import *
 import vp_coq
@@ -93,6 +94,8 @@ def value(ty, text):
         if ty in ("TU32", "TU64"):
             if abs(v) >= 2 ** bits:
                 return None
+            if text.startswith("-") and ty in negcheck_types():
+                return None                 # parse() refuses a minus sign before the tokens are stored (fix: 02ba52b)
             return v % 2 ** bits            # lexical_cast negates in the unsigned type
         if not (-2 ** (bits - 1) <= v < 2 ** (bits - 1)):
             return None
@@ -107,13 +110,63 @@ def value(ty, text):
     raise ValueError(ty)
 
 
+def negcheck_types():
+    """unsigned types whose tokens parse() checks for a minus sign (read from the source by the translator)"""
+    return set(info()["prog"].get("negcheck") or [])
+
+
 def spec_malformed(ty, text):
-    """malformed in the sense of the property: not a value of the option's type"""
+    """malformed in the sense of the property: not a value of the option's type (a signed text is not the text of
+    an unsigned value, whatever lexical_cast makes of it)"""
     if value(ty, text) is None:
         return True
-    if ty in ("TU32", "TU64") and text.startswith("-") and int(text) != 0:
+    if ty in ("TU32", "TU64") and text.startswith("-"):
         return True
     return False
+
+
+# What each current option MEANS: the getter of ProgramOptions (inc/IO/ProgramOptions.hpp) through which main() reads it,
+# named by the label under which harness/impl_options.cpp prints that getter (_showphasespace, _glversion, _configfile:
+# no getter in this build, private member).  Hand-written on purpose - the constructor's `&member` binding, which the
+# translator reads into the table, is what the oracle and the correspondence check against it.  An option that is not
+# listed (added later) falls back to the member the table names.
+GETTER = {
+    "AcceleratingVoltage": "V_RF", "BeamEnergy": "E_0", "BeamEnergySpread": "s_E", "BendingRadius": "r_bend",
+    "BunchCurrent": "I_b", "CollimatorRadius": "collimator", "CutoffFreq": "f_c", "DampingTime": "t_d",
+    "FPTrack": "fptrack", "FPType": "fptype", "ForceOpenGLVersion": "_glversion", "GridSize": "meshsize",
+    "HarmonicNumber": "H", "Impedance": "_impedancefile", "InitialDistFile": "_startdistfile",
+    "InitialDistStep": "_startdiststep", "InitialDistZoom": "zoom", "InterpolateClamped": "interpol_clamp",
+    "InterpolationPoints": "interpol_type", "LinearRF": "linearRF", "PhaseSpaceShiftX": "meshshiftx",
+    "PhaseSpaceShiftY": "meshshifty", "PhaseSpaceSize": "pq_size", "RFAmplitudeSpread": "rf_amplitude_spread",
+    "RFPhaseModAmplitude": "rf_phase_mod_amplitude", "RFPhaseModFrequency": "rf_phase_mod_frequency",
+    "RFPhaseSpread": "rf_phase_spread", "RenormalizeCharge": "renormalize", "RevolutionFrequency": "f0",
+    "RoundPadding": "roundpadding", "SavePhaseSpace": "_savephasespace", "StepsPerRevolution": "steps_per_Trev",
+    "StepsPerTs": "steps_per_Ts", "SynchrotronFrequency": "f_s", "UseCSR": "use_csr", "VacuumGap": "g",
+    "WallConductivity": "s_c", "WallSusceptibility": "xi_wall", "alpha0": "alpha0", "alpha1": "alpha1",
+    "alpha2": "alpha2", "cldev": "_cldevice", "config": "_configfile", "derivation": "deriv_type",
+    "gui": "_showphasespace", "output": "_outfile", "outstep": "outsteps", "padding": "padding",
+    "rotations": "rotations", "run_anyway": "_forcerun", "tracking": "_trackingfile", "verbose": "_verbose",
+}
+# legacy names and the current names they stand for (help strings of the _compatopts_alias group)
+SPEC_ALIAS = {"RFVoltage": "AcceleratingVoltage", "SyncFreq": "SynchrotronFrequency", "steps": "StepsPerTs"}
+
+
+def label_of(o):
+    """harness label through which the value of option o is observed"""
+    if o["kind"] == "KCanon":
+        return GETTER.get(o["name"], o["var"])
+    if o["kind"] == "KAlias":
+        return GETTER.get(SPEC_ALIAS.get(o["name"], o.get("canon")), o["var"])
+    return o["var"]
+
+
+def var_labels():
+    """{member named by the table: label of the getter that the option bound to it is documented to feed}"""
+    res = {}
+    for o in info()["table"].values():
+        if o["kind"] == "KCanon" and o["ty"] != "TFlag":
+            res[o["var"]] = label_of(o)
+    return res
 
 
 def default_value(ty, d):
@@ -181,6 +234,9 @@ class OptCase:
         return dict(kind="options", id=self.cid, argv=self.argv(), default_cfg=self.dflt, config=self.cfg,
                     tags=sorted(self.tags))
 
+    def replay_raw(self):
+        return dict(kind="options", id=self.cid, argv=self.raw_argv, default_cfg=self.dflt, config=self.cfg, tags=sorted(self.tags))
+
     @staticmethod
     def from_replay(rp):
         c = OptCase(rp.get("id", "rp"))
@@ -209,9 +265,15 @@ def cfg_text(items):
 
 def model_text(c):
     inf = info()
-    L = ["opt %s" % c.cid, str(len(c.cli))]
-    for x in c.cli:
-        L.append("%s %s %d %s" % (x["kind"], x["name"], len(x["toks"]), " ".join(str(c.tid(t)) for t in x["toks"])))
+    stray = {}
+    for pos, text in c.stray:
+        stray.setdefault(pos, []).append(text)
+    seq = []
+    for i, x in enumerate(c.cli + [None]):
+        seq += ["B _ 1 %d" % c.tid(t) for t in stray.get(i, [])]       # bare words, where argv() puts them
+        if x is not None:
+            seq.append("%s %s %d %s" % (x["kind"], x["name"], len(x["toks"]), " ".join(str(c.tid(t)) for t in x["toks"])))
+    L = ["opt %s" % c.cid, str(len(seq))] + seq
 
     def items(its):
         flat = [(n, t) for n, ts in its for t in ts]      # one file line per token
@@ -381,8 +443,10 @@ def status(r, pre=""):
     return r[pre + "status"][0][0]
 
 
-def compare(c, res):
-    """model vs implementation; -> list of differences"""
+def compare(c, res, by_getter=True):
+    """model vs implementation; -> list of differences.  by_getter: a member of the model is compared with the getter
+    that the option bound to it is documented to feed (C20: a wrong `&member` binding is a difference); otherwise
+    with the member of the same name (C13: the round trip does not depend on which member an option is bound to)"""
     m, i = res["model"], res["impl"]
     if m is None or i is None:
         return ["missing output (model %s, impl %s)" % (m is not None, i is not None)]
@@ -391,12 +455,16 @@ def compare(c, res):
         return ["status: model %s, impl %s (%s)" % (status(m), status(i), unesc(i["message"][0][0]) if i.get("message") and i["message"][0] else "")]
     if status(m) != "run":
         return d
+    if m.get("law") != [["true"]]:
+        d.append("the re-reading law of C13 (reparse_lawb) does not hold for the token oracle of this case")
+    lbl = var_labels() if by_getter else {}
     mv, iv = model_vars(c, m), impl_vars(i)
     for k, v in mv.items():
-        if k in UNINIT or k not in iv or v is None:
+        g = lbl.get(k, k)
+        if k in UNINIT or g not in iv or v is None:
             continue
-        if not same(v, iv[k]):
-            d.append("var %s: model %r, impl %r" % (k, v, iv[k]))
+        if not same(v, iv[g]):
+            d.append("var %s (getter %s): model %r, impl %r" % (k, g, v, iv[g]))
     # the saved file
     vt_name = {o["name"]: o["ty"] for o in info()["table"].values()}
     ms = [(p[0], int(p[1])) for p in m.get("saved", [])]
@@ -419,10 +487,11 @@ def compare(c, res):
     elif status(m, "r") == "run":
         mv, iv = model_vars(c, m, "r"), impl_vars(i, "r")
         for k, v in mv.items():
-            if k in UNINIT or k not in iv or v is None:
+            g = lbl.get(k, k)
+            if k in UNINIT or g not in iv or v is None:
                 continue
-            if not same(v, iv[k]):
-                d.append("reload var %s: model %r, impl %r" % (k, v, iv[k]))
+            if not same(v, iv[g]):
+                d.append("reload var %s (getter %s): model %r, impl %r" % (k, g, v, iv[g]))
     return d
 
 
@@ -600,12 +669,15 @@ def inject(ctx, c):
 def spec_resolve(name, kind):
     """the option a command-line spelling denotes: exact name, one-letter name, or unique prefix"""
     tab = info()["table"]
+    # legacy and ignored names are accepted in a config file only (property text), whatever the constructor composes
+    cl = [o for o in tab.values() if o["cli"] and o["kind"] in ("KCanon", "KFlag")]
     if kind == "S":
-        m = [o for o in tab.values() if o["cli"] and o["short"] == name]
+        m = [o for o in cl if o["short"] == name]
         return m[0] if len(m) == 1 else None
-    if name in tab and tab[name]["cli"]:
-        return tab[name]
-    m = [o for o in tab.values() if o["cli"] and o["name"].startswith(name)]
+    m = [o for o in cl if o["name"] == name]
+    if m:
+        return m[0]
+    m = [o for o in cl if o["name"].startswith(name)]
     return m[0] if len(m) == 1 else None
 
 
@@ -650,7 +722,7 @@ def spec_expect(c):
         o = tab.get(n)
         if o is None or not o["file"]:
             return ("fail", "unknown-cfg")
-        key = o["canon"] if o["kind"] == "KAlias" else n
+        key = SPEC_ALIAS.get(n, o["canon"]) if o["kind"] == "KAlias" else n
         if n in cli:
             continue            # same name on the command line: the value is never converted nor used (explored boundary, docs/built/C20.md)
         if any(spec_malformed(o["ty"], t) for t in ts):
@@ -669,17 +741,19 @@ def spec_expect(c):
         if o["kind"] != "KCanon" or o["ty"] == "TFlag":
             continue
         n = o["name"]
+        g = label_of(o)             # the getter the option is documented to feed, not the member the table names
         if n in cli:
             ts = cli[n]
         elif n in cfg:
             ts = cfg[n][0]
         else:
             d = o["defcli"] if o["cli"] else o["deffile"]
-            exp[o["var"]] = default_value(o["ty"], d) if d is not None else init_value(o["var"], o["ty"])
+            exp[g] = default_value(o["ty"], d) if d is not None else init_value(o["var"], o["ty"])
             continue
         vs = [value(o["ty"], t) for t in ts]
-        exp[o["var"]] = vs if o["ty"] == "TVecFloat" else vs[0]
-    for v in (v for k, v in inf["prog"]["tail"] if k == "devnull"):
+        exp[g] = vs if o["ty"] == "TVecFloat" else vs[0]
+    lbl = var_labels()
+    for v in (lbl.get(v, v) for k, v in inf["prog"]["tail"] if k == "devnull"):
         if exp.get(v) == "/dev/null":
             exp[v] = ""
     return ("run", exp, dict(both=both))
@@ -776,3 +850,61 @@ def default_vars():
                 d = o["defcli"] if o["cli"] else o["deffile"]
                 _dv[o["var"]] = default_value(o["ty"], d) if d is not None else init_value(o["var"], o["ty"])
     return _dv
+
+
+# ------------------------------------------------------------------------------------ the documented defaults (--help)
+HELP_RE = re.compile(r"^\s+(?:-(\w) \[ --(\w+) \]|--(\w+))\s+(?:arg|\[=arg\(=[^)]*\)\])(?:\s+\(=(.*?)\))?(?:\s{2,}.*)?$")
+
+
+def documented_defaults(help_text):
+    """{long name: default as printed by --help} ("else the documented default" of C20 is this text)"""
+    res = {}
+    for line in help_text.splitlines():
+        m = HELP_RE.match(line)
+        if m and m.group(4) is not None:
+            res[m.group(2) or m.group(3)] = m.group(4)
+    return res
+
+
+def oracle_doc_defaults(ctx, tg):
+    """The default that --help documents for an option against the value its getter returns when nothing is given
+    (no argument, no ./default.cfg).  They can differ: default_value(v, "text") prints the text."""
+    wd = tempfile.mkdtemp(prefix="vhelp", dir=os.path.join(VERIF, ".cache"))
+    try:
+        r = subprocess.run(["timeout", "20", tg["inovesa"], "--help"], cwd=wd, capture_output=True, text=True,
+                           env=vp_build.xdg_env())
+    finally:
+        shutil.rmtree(wd, ignore_errors=True)
+    docs = documented_defaults(r.stdout)
+    c = OptCase("nodefault")
+    c.raw_argv = ["inovesa"]
+    res = run_cases(ctx, [c], tg)
+    i = res[c.cid]["impl"]
+    if r.returncode != 0 or not docs or i is None or status(i) != "run":
+        ctx.violation("impl-oracle", "`inovesa --help` / `inovesa` without arguments do not behave as documented",
+                      case=c.replay_raw(), observed=dict(rc=r.returncode, documented=len(docs)), expected="run",
+                      sig=dict(kind="options", clause="documented-default", option=None))
+        return
+    iv = impl_vars(i)
+    tab = info()["table"]
+    judged = 0
+    for name, txt in sorted(docs.items()):
+        o = tab.get(name)
+        if o is None or o["ty"] == "TFlag":
+            continue
+        g = label_of(o)
+        if g in NO_GETTER or g in UNINIT or g not in iv:
+            continue
+        v = value(o["ty"], txt)
+        if v is None and txt == "(ignore)":
+            v = 0          # "will overwrite alpha0 when set to a value different from 0": ignored = 0
+        if v is None:
+            ctx.count("documented-default-not-a-value")
+            continue
+        judged += 1
+        if not same(v, iv[g]):
+            ctx.violation("impl-oracle", "--help documents the default %s for %s, but without any option its value is %r" % (txt, name, iv[g]),
+                          case=c.replay_raw(), observed={g: iv[g]}, expected={g: v},
+                          sig=dict(kind="options", clause="documented-default", option=name))
+    ctx.count("documented-defaults", judged)
+    ctx.case_done(("doc-defaults",), judged > 20)
